@@ -47,6 +47,35 @@ def run(rep, programs):
     rep.check(good, rule, "get_local|min", "min = 2^order - reservation.free",
               "the sync threshold is %s, not 2^order - (free counter of the failed reservation): frames freed into the reserved "
               "tree's global counter can stay unreachable" % detail, st["span"])
+    # the sync path is enabled: Trees::sync is control dependent on the `sync` parameter being true, and the API path passes true
+    en = False
+    for s_, d_ in lib.controlling_edges(b, sb):
+        c = tm.operand(b.term(s_)["discr"])
+        if T.canon(c) == ("p", "sync") and lib.bool_edge_polarity(b, s_, d_) is True:
+            en = True
+    ps_ = PathSens(b, prog)
+    if not en:
+        # `sync && ..` lowered through a temporary: every state at the sync call knows sync == 1
+        sl = [l_ for l_ in range(1, b.arg_count + 1) if b.local_name(l_) == "sync"]
+        sts = ps_.states_at(sb)
+        en = bool(sl) and bool(sts) and all(env.get(("v", sl[0])) == 1 for _, env in sts)
+    rep.check(en, rule, "get_local|sync-enabled-by-flag", "Trees::sync runs exactly on the calls that pass sync = true",
+              "Trees::sync is not controlled by the `sync` parameter", st["span"])
+    api = lib.need_body(prog, "<llfree::llfree::LLFree as llfree::Alloc>::get")
+    atm = T.Terms(api, prog)
+    flags = []
+    for name in [api.name] + [cb.name for cb in prog.crate("llfree").closures_of(api.name)] + ["llfree::llfree::LLFree::get_at"]:
+        fb = prog.body(name)
+        if fb is None:
+            continue
+        ftm = T.Terms(fb, prog)
+        for bi, t in fb.calls_to(GL):
+            flags.append((name, T.const_val(ftm.operand(t["args"][5])), t["span"]))
+    rep.check(bool(flags) and all(v == 1 for _, v, _ in flags), rule, "get|passes-sync-true",
+              "the allocation entry points call get_local(.., sync = true)",
+              "an allocation entry point calls get_local with sync = %s: the reserved tree's global counter is never synchronised, so "
+              "frames freed without naming the slot stay unreachable" % [(n.split("::")[-1], v) for n, v, _ in flags if v != 1],
+              flags[0][2] if flags else b.span)
     # the tree synced is the reservation's tree
     tr = tm.operand(st["args"][1])
     rep.check(tr[0] == "call" and tr[1] == "llfree::bitfield::RowId::as_tree" and T.mentions_call(tr, "llfree::local::Locals::get"),
